@@ -107,7 +107,7 @@ var c10DockerSpec = &c10spec{
 func verifC10Docker(c *drv.Ctx) {
 	frames := []string{"cl"}
 	if c.Thorough() {
-		frames = []string{"cl", "chunked", "eof"}
+		frames = []string{"cl", "chunked", "eof", "gzip"}
 	}
 	c.R.Rule = "real docker.Scanner.Scan (timeout 300 ms for the whole probe) against one scripted loopback server per script, each on its own 127.x.y.z:port, self-signed certificate made at run time. " +
 		"script = scheme {http, https} x answer to /_ping {ok: 200 + API-Version 1.41, fail: 500 without version header, stall} x answer to GET /vX/info x answer to GET /vX/version {ok: 200 json object, fail: connection closed, stall}. " +
